@@ -2,27 +2,32 @@
 import json, os, re
 import verif
 
-SIM_CFG = """SPECIFICATION Spec
+GEN_CFG = """SPECIFICATION Spec
 CONSTANTS
-  Paths = {"a", "b", "d", "d/x"}
-  EditPlan <- %s
+  Paths = %(paths)s
+  EditPlan <- %(plan)s
   Twin = FALSE
-  Modes = {"inc", "incskip", "force"}
+  Modes = %(modes)s
+  FlagSet = %(flags)s
+  Targets = %(targets)s
+  Bigs = %(bigs)s
+  FaultKinds = %(faults)s
+  MaxVictim = %(maxv)d
   Emit = TRUE
 INVARIANT IncEqualsFull
 CHECK_DEADLOCK FALSE
 """
 
-SINGLES_CFG = """SPECIFICATION Spec
-CONSTANTS
-  Paths = %s
-  EditPlan <- Plan01
-  Twin = FALSE
-  Modes = {"inc"}
-  Emit = TRUE
-INVARIANT IncEqualsFull
-CHECK_DEADLOCK FALSE
-"""
+ALL_PATHS = '{"a", "b", "d", "d/x"}'
+ALL_FLAGS = '{"none", "ignore-ctime", "ignore-inode"}'
+ALL_TARGETS = '{"dir", "deep", "dot", "list"}'
+ALL_FAULTS = '{"readerr", "treeloss", "dataloss"}'
+
+
+def gen_cfg(**kw):
+    d = dict(paths=ALL_PATHS, plan="Plan01", modes='{"inc"}', flags=ALL_FLAGS, targets='{"dir"}', bigs="{FALSE}", faults="{}", maxv=0)
+    d.update(kw)
+    return GEN_CFG % d
 
 
 def parse_hist(out):
@@ -39,48 +44,89 @@ def parse_hist(out):
 
 def design(ctx):
     """Exhaustive runs of the history model: premise => incremental tree = full tree and a skipped snapshot hides no
-    change; the negative twin (premise not enforced) must be refuted; omission must be reachable (vacuity)."""
+    change (also with every planned fault: read error during an earlier backup, lost tree / data blobs of the parent);
+    the negative twin (premise not enforced) must be refuted; omission, a judged backup after a read-error backup and
+    a judged backup with a damaged parent must be reachable (vacuity)."""
     import concurrent.futures as cf
-    jobs = [(c, None) for c in (["small", "full"] if ctx.thorough() else ["small"])] + [("twin", "IncEqualsFull"), ("vac", "NeverOmits")]
+    jobs = [(c, None) for c in (["small", "faults", "full"] if ctx.thorough() else ["small", "faults"])] + [
+        ("twin", "IncEqualsFull"), ("vac", "NeverOmits"), ("vacfaults", "NeverAfterReadErr"), ("vacdamage", "NeverDamagedParent")]
 
     def one(job):
         cfg, exp = job
-        r = ctx.tlc("Incremental", cfg="Incremental_%s.cfg" % cfg, workers=4, name="design_" + cfg, timeout=2400, allow_violation=exp is not None)
+        r = ctx.tlc("Incremental", cfg="Incremental_%s.cfg" % cfg, workers=4 if exp is None else 2, name="design_" + cfg, timeout=2400, allow_violation=exp is not None)
         if exp is None:
             return {"cfg": cfg, "states": r["states"], "transitions": r["transitions"], "result": "holds"}
         if exp not in r["violated"]:
             raise verif.MachineryError("design run %s: expected TLC to refute %s, got %s" % (cfg, exp, r["violated"]))
         return {"cfg": cfg, "states": r["states"], "transitions": r["transitions"], "result": "refuted: " + exp}
-    with cf.ThreadPoolExecutor(max_workers=4) as ex:
+    with cf.ThreadPoolExecutor(max_workers=3) as ex:
         return list(ex.map(one, jobs))
 
 
 def histories(ctx):
-    # (1) exhaustive: backup, every single enabled edit operation, incremental backup - for every flag setting
-    paths = ctx.pick('{"a"}', '{"a", "b", "d", "d/x"}')
-    r1 = ctx.tlc("Incremental", cfg="Incremental_singlesrun.cfg", files={"Incremental_singlesrun.cfg": SINGLES_CFG % paths}, workers=1,
-                 name="singles", timeout=1800)
-    singles = parse_hist(r1["out"])
-    if len(singles) < 30:
-        raise verif.MachineryError("TLC enumerated only %d single-edit histories, see %s" % (len(singles), r1["dir"]))
-    # (2) random walks of the history model
-    n = ctx.pick(15, 150)
-    r = ctx.tlc("Incremental", cfg="Incremental_simrun.cfg", files={"Incremental_simrun.cfg": SIM_CFG % ctx.pick("Plan3333", "Plan33333")},
-                workers=1, simulate="num=%d" % n, depth=80, extra=("-seed", str(1000 + ctx.seed)), name="simulate", timeout=1800)
-    sims = parse_hist(r["out"])
-    if len(sims) < n // 2:
-        raise verif.MachineryError("TLC simulation printed only %d histories, see %s" % (len(sims), r["dir"]))
+    """TLC generates the histories; five classes (run side by side):
+    singles   exhaustive: backup, every single enabled edit operation, incremental backup - for every flag setting
+    rootonly  the same with --skip-if-unchanged for the target styles whose root tree lists the entries of the source
+              themselves (dot, list; thorough also deep): changes that touch nothing but the root tree
+    readerr   exhaustive: every file x every target style, big files: a backup that meets a read error in that file,
+              then an incremental backup with that snapshot as parent
+    damage    exhaustive: every tree of the parent (every target style) / the parent's data blobs lost before the
+              incremental backup
+    sim       random walks of the history model over everything at once"""
+    import concurrent.futures as cf
+    th = ctx.thorough()
+    n = ctx.pick(16, 150)
+    runs = [
+        ("singles", gen_cfg(paths=ctx.pick('{"a"}', ALL_PATHS)), None, False),
+        ("rootonly", gen_cfg(paths=ctx.pick('{"a", "d"}', ALL_PATHS), modes='{"incskip"}', flags=ctx.pick('{"none"}', ALL_FLAGS),
+                             targets=ctx.pick('{"dot", "list"}', '{"dot", "list", "deep"}')), None, False),
+        ("readerr", gen_cfg(plan=ctx.pick("Plan00", "Plan01"), modes=ctx.pick('{"inc"}', '{"inc", "incskip"}'), flags='{"none"}', targets=ALL_TARGETS,
+                            bigs="{TRUE}", faults='{"readerr"}', maxv=2), None, True),
+        ("damage", gen_cfg(plan="Plan00", modes=ctx.pick('{"inc"}', '{"inc", "incskip"}'), flags='{"none"}', targets=ALL_TARGETS,
+                           bigs=ctx.pick("{FALSE}", "{FALSE, TRUE}"), faults='{"treeloss", "dataloss"}', maxv=5), None, True),
+        ("sim", gen_cfg(plan=ctx.pick("Plan3333", "Plan33333"), modes='{"inc", "incskip", "force"}', targets=ALL_TARGETS, bigs="{FALSE, TRUE}",
+                        faults=ALL_FAULTS, maxv=5), n, False),
+    ]
+
+    def one(run):
+        cls, cfg, nsim, only_faulty = run
+        name = "Incremental_%srun.cfg" % cls
+        if nsim is None:
+            r = ctx.tlc("Incremental", cfg=name, files={name: cfg}, workers=1, name="gen_" + cls, timeout=1800)
+        else:
+            r = ctx.tlc("Incremental", cfg=name, files={name: cfg}, workers=1, simulate="num=%d" % nsim, depth=80,
+                        extra=("-seed", str(1000 + ctx.seed)), name="gen_" + cls, timeout=1800)
+        hs = parse_hist(r["out"])
+        if only_faulty:
+            hs = [h for h in hs if any(o["op"] == "backup" and o["fault"] != "none" for o in json.loads(h)["ops"])]
+        return cls, hs, r["dir"]
+    with cf.ThreadPoolExecutor(max_workers=5) as ex:
+        got = list(ex.map(one, runs))
+    counts, out, seen = {}, [], set()
+    for cls, hs, d in got:
+        if len(hs) < {"singles": 30, "rootonly": 20, "readerr": 8, "damage": 10, "sim": n // 2}[cls]:
+            raise verif.MachineryError("TLC produced only %d %s histories, see %s" % (len(hs), cls, d))
+        k = 0
+        for h in hs:
+            if h in seen:
+                continue
+            seen.add(h)
+            o = json.loads(h)
+            o["cls"] = cls
+            out.append(json.dumps(o))
+            k += 1
+        counts[cls] = k
     p = os.path.join(ctx.work, "hist.ndjson")
     with open(p, "w") as fh:
-        fh.write("\n".join(singles + sims) + "\n")
-    return p, len(singles), len(sims)
+        fh.write("\n".join(out) + "\n")
+    return p, counts
 
 
 def run(ctx):
     import concurrent.futures as cf
     with cf.ThreadPoolExecutor(max_workers=1) as bg:
+        vec, nhist = histories(ctx)
         fut = bg.submit(design, ctx)      # design runs do not depend on /repo; they run beside the replay
-        vec, nsingle, nsim = histories(ctx)
         out = ctx.go_test("cmd/restic", "^TestVerif_C40$", timeout=3000, env={"VERIF_VECTORS": vec})
         des = fut.result()
     recs = os.path.join(out, "recs.ndjson")
@@ -92,7 +138,9 @@ def run(ctx):
     n, bad, lines = ctx.check_records("Fn_Incremental", recs)
     for i in bad[:200]:
         r = json.loads(lines[i - 1])
-        if r["omitted"] != (r["skip"] and r["has_parent"] and r["parent_tree"] == r["full_tree"]) or (not r["damaged"] and r["omitted"] != r["model_omitted"]):
+        if r["failed"]:
+            what = "backup-failed"
+        elif r["omitted"] != (r["skip"] and r["has_parent"] and r["parent_tree"] == r["full_tree"]) or (not r["damaged"] and r["omitted"] != r["model_omitted"]):
             what = "snapshot-%s-wrongly" % ("omitted" if r["omitted"] else "written")
         elif not r["loadable"]:
             what = "blobs-missing"
@@ -101,8 +149,10 @@ def run(ctx):
         else:
             what = "content-differs"
         key = "incremental/%s/%s/%s/%s" % (r["flags"], r["mode"], what, "+".join(sorted(set(r["since"]))) or "no-edit")
-        ctx.violate(key, "history %d backup point %d (flags %s, mode %s, edits since previous backup %s, parent %s): omitted=%s (model %s), incremental tree %s, parentless tree %s, parent tree %s, loadable=%s, snapshot content %s, source %s %s (Fn_Incremental!RecOK false)"
-                    % (r["hist"], r["point"], r["flags"], r["mode"], r["since"], r["has_parent"], r["omitted"], r["model_omitted"], r["inc_tree"],
+        if r["target"] != "dir" or r["fault"] != "none":
+            key += "/%s/%s" % (r["target"], r["fault"])
+        ctx.violate(key, "history %d backup point %d (flags %s, target style %s, big files %s, fault %s %s, mode %s, edits since previous backup %s, parent %s): failed=%s omitted=%s (model %s), incremental tree %s, parentless tree %s, parent tree %s, loadable=%s, snapshot content %s, source %s %s (Fn_Incremental!RecOK false)"
+                    % (r["hist"], r["point"], r["flags"], r["target"], r["big"], r["fault"], r["lost"], r["mode"], r["since"], r["has_parent"], r["failed"], r["omitted"], r["model_omitted"], r["inc_tree"],
                        r["full_tree"], r["parent_tree"], r["loadable"], r["inc_abs"], r["model_tree"], r["detail"]), r)
     res = ctx.go_results[-1]
     cnt = res.get("counters", {})
@@ -110,12 +160,20 @@ def run(ctx):
         raise verif.MachineryError("the real file system left the model's premise at %d backup points" % cnt["premise_real_differs_from_model"])
     if cnt.get("points_with_parent", 0) < 10:
         raise verif.MachineryError("only %d backup points used a parent" % cnt.get("points_with_parent", 0))
+    if not ctx.violations:
+        for k in ("points_parent_tree_lost", "points_parent_data_lost", "points_with_read_error", "points_target_dot", "points_target_list", "points_target_deep", "points_big_files"):
+            if cnt.get(k, 0) < 2:
+                raise verif.MachineryError("input class %s was replayed at %d backup points only" % (k, cnt.get(k, 0)))
+        if cnt.get("read_error_not_triggered", 0) or cnt.get("read_error_snapshot_differs_from_model", 0):
+            raise verif.MachineryError("read-error backups did not behave as the model assumes (not triggered %d, snapshot differs %d)"
+                                       % (cnt.get("read_error_not_triggered", 0), cnt.get("read_error_snapshot_differs_from_model", 0)))
     cov = {"evaluations": n, "distinct_nontrivial": res["distinct_nontrivial"], "rule": res["rule"], "samples": verif.samples_from(lines, 3),
-           "single_edit_histories_enumerated_by_tlc": nsingle, "random_histories_simulated_by_tlc": nsim, "records_checked_by_tlc": n, "records_rejected": len(bad), "design_runs": des,
+           "histories_generated_by_tlc": nhist, "records_checked_by_tlc": n, "records_rejected": len(bad), "design_runs": des,
            "counters": cnt, "exhaustive": False}
     return verif.finish(ctx, "exploration", cov, [
         "edit operations are realised with real system calls (truncate+write keeps the inode, write+rename gives a new one, utimes restores mtime, ctime is the kernel's); the premise is measured on the real metadata at every backup point and must agree with the model",
         "the parentless backup of the same source state is taken with --force under another host name in the same repository (same chunker polynomial)",
-        "relative target (cd base; restic backup src): metadata of directories above the target is not part of the tree",
-        "at a few backup points the packs holding the parent's file data are removed and the index rebuilt before the incremental backup: the stored tree must still be loadable (as after a full backup)",
-        "model bounds: paths {a, b, d, d/x}, 17 edit operations; all single-edit histories (backup, edit, incremental backup) per flag setting enumerated by TLC, plus TLC -simulate walks of 4-5 backups with 0-3 edits in between"])
+        "relative targets only (cd base; restic backup src | i1/i2/i3/src, cd src; restic backup . | <top-level entries>): metadata of directories above the working directory is not part of the tree; the 'list' style selects the parent by host only (the target list changes with the source)",
+        "faults are planned by the model, at most one per history: (a) a transient read error (EIO once, in the middle of the file; fs hook of the backup command; --read-concurrency 1 in the enumerated histories) during one backup - that backup is not judged (it is no backup of the same source as the parentless one), its snapshot is the parent of the next, judged backup; (b) one tree blob of the parent lost (byte flipped inside the pack, then the real `repair packs`), every directory of the snapshot in turn incl. root and intermediate directories; (c) the packs holding the parent's file data removed + `repair index`. After (b)/(c) the stored tree must equal the parentless one and be loadable, and the backup must not fail",
+        "big files: 600 KiB + token-dependent length, 1 KiB of zero bytes then random bytes (more than one read buffer / minimal chunk)",
+        "model bounds: paths {a, b, d, d/x}, 17 edit operations; enumerated by TLC: all single-edit histories per flag setting, all single-edit histories with --skip-if-unchanged for the dot/list styles, every (file, style) read error and every (tree | data, style) loss; plus TLC -simulate walks of 4-5 backups with 0-3 edits in between over all styles, sizes and faults"])
